@@ -47,7 +47,7 @@ def run_shard(shard, ctx):
         tag = ("c06", kind, D, R)
         Sig = objs.spd_batch(D, R, vi, seed, tag, diag=diag)
         mu = objs.vec_batch(D, R, vi, seed, tag)
-        which = ("fresh", "sliced_neg", "updated", "Sigma+Lambda", "queried", "replaced_mu", "conditioned", "prod_linear", "prod_constant") if (vi == 0 and D <= 3) else ("fresh",)
+        which = ("fresh", "sliced_neg", "updated", "Sigma+Lambda", "queried", "replaced_mu", "prod_conjugate", "conditioned", "prod_linear", "prod_constant") if (vi == 0 and D <= 3) else ("fresh",)
         for prep, mkp, mu_e, Sig_e in objs.pdf_variants(kind, Sig, mu, which=which):
             with ctx.guard("prepare." + prep, dict(prep=prep)) as g:
                 p = mkp()
